@@ -284,7 +284,71 @@ pub fn check_ops(c: &OpsCase, acc: &mut Acc, record: bool) -> Verdict {
         let i = (0..a.len()).find(|i| a[*i] != b[*i] || a[*i] != d[*i]).unwrap();
         return Verdict::Fail(format!("inputs disagree at op {i}: SliceInput {:?} OwnedInput {:?} DeserializationContext {:?} (data {})", a[i], b[i], d[i], hex(&c.data)));
     }
+    // the same bytes as a chunk of an evolved record in the middle of a larger buffer: inside that chunk the context
+    // must behave like an input over exactly these bytes (short data only: the record is rebuilt per case)
+    if c.data.len() <= 64 {
+        match ops_inside_chunk(&c.data, &c.ops) {
+            Ok(inner) => {
+                if inner != a {
+                    let i = (0..a.len()).find(|i| a[*i] != inner[*i]).unwrap_or(0);
+                    return Verdict::Fail(format!("inside a chunk of an evolved record the context disagrees with SliceInput over the chunk's bytes at op {i}: {:?} vs {:?} (chunk {}, bytes follow the chunk in the buffer)", inner.get(i), a.get(i), hex(&c.data)));
+                }
+                if record {
+                    acc.bump("op_sequences_also_run_inside_a_chunk", 1);
+                }
+            }
+            Err(e) => return Verdict::Fail(format!("reading a hand-built record around the data failed: {e}")),
+        }
+    }
     Verdict::Pass
+}
+
+thread_local! {
+    static CHUNK_OPS: std::cell::RefCell<(Vec<Op>, Vec<u8>, Vec<String>)> = const { std::cell::RefCell::new((Vec::new(), Vec::new(), Vec::new())) };
+}
+
+/// field codec that runs the thread's op sequence on the context it is handed
+struct OpsRunner;
+impl desert::BinaryDeserializer for OpsRunner {
+    fn deserialize(context: &mut DeserializationContext<'_>) -> desert::Result<Self> {
+        let (ops, data) = CHUNK_OPS.with(|c| {
+            let c = c.borrow();
+            (c.0.clone(), c.1.clone())
+        });
+        let lines = run_ops(context, &data, &ops);
+        CHUNK_OPS.with(|c| c.borrow_mut().2 = lines);
+        Ok(OpsRunner)
+    }
+}
+
+fn ops_inside_chunk(data: &[u8], ops: &[Op]) -> Result<Vec<String>, String> {
+    use desert::adt::{AdtDeserializer, AdtMetadata};
+    let meta = AdtMetadata::new(vec![desert::Evolution::InitialVersion, desert::Evolution::FieldAdded { name: "ops".into() }, desert::Evolution::FieldAdded { name: "after".into() }]);
+    let mut input = vec![0xC3, 0x3C, 2];
+    vmodel::refcodec::var_i32(1, &mut input);
+    vmodel::refcodec::var_i32(data.len() as i32, &mut input);
+    vmodel::refcodec::var_i32(3, &mut input);
+    input.push(0x55);
+    input.extend_from_slice(data);
+    // what follows the chunk in the buffer: bytes that read well as anything
+    input.extend_from_slice(&[0x01, 0x02, 0x03, 0x7f, 0x7f, 0x7f, 0x7f, 0x7f, 0x7f, 0x7f, 0x7f, 0x7f, 0x7f, 0x7f, 0x7f, 0x7f, 0x7f, 0x7f, 0x7f]);
+    CHUNK_OPS.with(|c| *c.borrow_mut() = (ops.to_vec(), data.to_vec(), Vec::new()));
+    let e = |x: desert::Error| format!("{x:?}");
+    let mut ctx = DeserializationContext::new(&input);
+    ctx.read_u8().map_err(e)?;
+    ctx.read_u8().map_err(e)?;
+    let stored = ctx.read_u8().map_err(e)?;
+    let mut de = AdtDeserializer::new(&meta, &mut ctx, stored).map_err(e)?;
+    let first: u8 = de.read_field("first", None).map_err(e)?;
+    if first != 0x55 {
+        return Err("the sibling in chunk 0 changed".into());
+    }
+    if data.is_empty() {
+        // an empty chunk is the header code for "no chunk": nothing to run the ops in
+        return Ok(run_ops(&mut SliceInput::new(data), data, ops));
+    }
+    let _: OpsRunner = de.read_field("ops", None).map_err(e)?;
+    Ok(CHUNK_OPS.with(|c| c.borrow().2.clone()))
 }
 
 #[derive(Debug, Clone, Serialize, Deserialize)]
@@ -373,7 +437,7 @@ pub fn run(cx: &Cx) -> PropResult {
     PropResult::new(
         acc,
         "exploration",
-        "(a) generated (type, value) cases, including values whose encoding fails (non-BMP chars) and a stream of values over a six-string alphabet with DeduplicatedString and derived types (back-references, repeated header names): the same instance is serialized through serialize(Vec<u8>), serialize(BytesMut), serialize_to_bytes, serialize_to_byte_vec, a user-defined recording output and the same output fed byte by byte; all streams (or all errors) must be identical and SizeCalculator.size() must equal the length; so for values of a user codec that writes a compressed block (0 - 200 000 content bytes, compressible or not, levels 0-9) through the context. (b) generated sequences of primitive reads (fixed-width, varints, read_bytes / skip with counts 0, remaining-2..remaining+2, usize::MAX, usize::MAX-pos, huge; read_compressed) over generated byte strings (up to 48 bytes, one in 37 between 4 000 and 70 000 bytes with counts around 256, 1 024, 4 096, 8 192 and 65 536), executed on SliceInput, OwnedInput and DeserializationContext: results must agree op by op and the three must see the end of input at the same point. Non-trivial = (a) encoding >= 2 bytes or failing; (b) a sequence with a successful multi-byte read and a failing op.",
+        "(a) generated (type, value) cases, including values whose encoding fails (non-BMP chars) and a stream of values over a six-string alphabet with DeduplicatedString and derived types (back-references, repeated header names): the same instance is serialized through serialize(Vec<u8>), serialize(BytesMut), serialize_to_bytes, serialize_to_byte_vec, a user-defined recording output and the same output fed byte by byte; all streams (or all errors) must be identical and SizeCalculator.size() must equal the length; so for values of a user codec that writes a compressed block (0 - 200 000 content bytes, compressible or not, levels 0-9) through the context. (b) generated sequences of primitive reads (fixed-width, varints, read_bytes / skip with counts 0, remaining-2..remaining+2, usize::MAX, usize::MAX-pos, huge; read_compressed) over generated byte strings (up to 48 bytes, one in 37 between 4 000 and 70 000 bytes with counts around 256, 1 024, 4 096, 8 192 and 65 536), executed on SliceInput, OwnedInput and DeserializationContext: results must agree op by op and the three must see the end of input at the same point; sequences over at most 64 bytes are also run by a field codec inside a chunk of an evolved record in the middle of a larger buffer, where the context must behave like an input over the chunk's bytes alone. Non-trivial = (a) encoding >= 2 bytes or failing; (b) a sequence with a successful multi-byte read and a failing op.",
     )
 }
 
